@@ -229,6 +229,22 @@ class Real:
             log = f"?{e}"
         return f"depth={self.depth()} log={log} vars={vars_}"
 
+    def pycall(self, name, args):
+        """call the value bound to `name` through the Python interface klong[name](*args) -> outcome"""
+        try:
+            with _alarm(STATEMENT_TIMEOUT):
+                r = self.k[name](*args)
+            try:
+                return "ok " + ast_wire(r)
+            except Unsupported as e:
+                return f"ok ?{e}"
+        except _Timeout:
+            return "err timeout"
+        except RecursionError:
+            return "err fuel"
+        except Exception as e:  # noqa: BLE001
+            return f"err {err_class(e)} {type(e).__name__}: {e}"[:200]
+
     def run(self, text):
         """-> (outcome, digest); outcome = 'ok <wire>' | 'err <class>'.  Every statement runs under an
         alarm: a change that turns a bounded recursion into an endless loop must end as `err timeout`."""
@@ -1162,6 +1178,41 @@ def case_adverb(rng):
                                                        spelling=spelling, shape=shape, body=body))
 
 
+# ---- dyadic adverbs whose iterated operand is an ATOM (and, for comparison, a list): small and deterministic
+
+ATOM_VERBS = ["x-y", "(10*x)+y", "x,y"]
+
+
+def case_advatom(body, spelling):
+    """every adverb form with a non-commutative function verb; operands atoms and lists"""
+    stmts = list(PRELUDE) + ["f::{" + body + "}"]
+    ndefs = len(stmts)
+    v = "f" if spelling == "named" else "{" + body + "}"
+    checks = []
+
+    def add(text, form, a, b):
+        checks.append(dict(i=len(stmts), form=form, a=a, b=b))
+        stmts.append(text)
+
+    for a, b in [(7, 3), (1, 2), (0, 5)]:
+        add(f"{a} {v}:\\{b}", "eachleft", a, b)
+        add(f"{a} {v}:/{b}", "eachright", a, b)
+        add(f"{a} {v}'{b}", "each2", a, b)
+        add(f"{a} {v}/{b}", "overn", a, b)
+        add(f"{a} {v}\\{b}", "scann", a, b)
+    for a, b in [(7, [3]), (7, [3, 1, 2]), (2, [5, 0])]:
+        add(f"{a} {v}:\\{lit_text(b)}", "eachleft", a, b)
+        add(f"{a} {v}:/{lit_text(b)}", "eachright", a, b)
+        add(f"{a} {v}/{lit_text(b)}", "overn", a, b)
+        add(f"{a} {v}\\{lit_text(b)}", "scann", a, b)
+    for a, b in [([7, 1], [3, 2]), ([1, 2, 3], [4, 5, 6])]:
+        add(f"{lit_text(a)} {v}'{lit_text(b)}", "each2", a, b)
+    for b in [5, 0]:
+        add(f"{v}/{b}", "over1", None, b)
+        add(f"{v}:'{b}", "eachpair1", None, b)
+    return dict(kind="advatom", stmts=stmts, tie=False, meta=dict(ndefs=ndefs, checks=checks, body=body, spelling=spelling))
+
+
 # ---- symbol-valued arguments
 
 def case_symbols(rng):
@@ -1619,6 +1670,55 @@ class _Stop(Exception):
     pass
 
 
+def oracle_advatom(ctx, case, obs):
+    m = case["meta"]
+    if not _ok_prefix(obs, m["ndefs"]):
+        ctx.bump("gen-reject:" + case["kind"])
+        return
+    twin = Real()
+    for text in case["stmts"][:m["ndefs"]]:
+        twin.run(text)
+
+    def app(x, y):
+        r, _ = twin.run(f"f({lit_text(x)};{lit_text(y)})")
+        if not r.startswith("ok"):
+            raise _Stop(r)
+        return _plain_of_wire(r[3:])
+
+    for c in m["checks"]:
+        o = obs[c["i"]]
+        a, b, form = c["a"], c["b"], c["form"]
+        atom = not isinstance(b, list)
+        try:
+            if form == "eachleft":          # a f:\b : f(a;b) for an atom, else f(a;b_i)
+                want = app(a, b) if atom else [app(a, q) for q in b]
+            elif form == "eachright":       # a f:/b : f(b;a) for an atom, else f(b_i;a)
+                want = app(b, a) if atom else [app(q, a) for q in b]
+            elif form == "each2":
+                want = app(a, b) if atom else [app(p, q) for p, q in zip(a, b)]
+            elif form == "overn":
+                want = a
+                for q in ([b] if atom else b):
+                    want = app(want, q)
+            elif form == "scann":
+                acc = a
+                want = [a]
+                for q in ([b] if atom else b):
+                    acc = app(acc, q)
+                    want.append(acc)
+            else:                           # f/atom and f:'atom ignore f
+                want = b
+            wout = "ok " + _wire_of(want)
+        except _Stop as e:
+            wout = e.args[0]
+        if o["out"] != wout:
+            ctx.oracle_fail("adverb:" + form + (":atom" if atom else ""), dict(case=_js(case), text=o["text"]), wout, o["out"],
+                            f"a function as the verb of {form} with {'an atom' if atom else 'a list'} as the iterated "
+                            "operand differs from the explicit direct call(s)")
+            return
+    ctx.bump("oracle:advatom")
+
+
 def oracle_symbols(ctx, case, obs):
     m = case["meta"]
     if not _ok_prefix(obs, m["ndefs"]):
@@ -1644,7 +1744,7 @@ def oracle_symbols(ctx, case, obs):
             return
 
 
-ORACLES = dict(history=oracle_history, adverb=oracle_adverb, symbols=oracle_symbols, subst=oracle_subst, rec=oracle_rec, proj=oracle_proj, cond=oracle_cond, frame=oracle_frame,
+ORACLES = dict(history=oracle_history, adverb=oracle_adverb, symbols=oracle_symbols, advatom=oracle_advatom, subst=oracle_subst, rec=oracle_rec, proj=oracle_proj, cond=oracle_cond, frame=oracle_frame,
                locals=oracle_locals, hand=None)
 
 
@@ -1821,6 +1921,51 @@ def gen_ctx_ops(rng, n):
     return ops
 
 
+# --------------------------------------------------------------------------- projections called from Python
+
+def run_pycall_projections(ctx, rng):
+    """klong[name](...) on a stored projection: every hole pattern of arity 2 and 3, one and two projection
+    steps, compared with the same call written in Klong and with the direct call (deterministic family)"""
+    bodies = {2: [("(10*x)+y", [4, 7]), ("x,y", [[1, 2], 3])],
+              3: [("(100*x)+(10*y)+z", [4, 7, 9]), ("x,y,z", [[1, 2], 3, [4]])]}
+    for n in (2, 3):
+        for body, args in bodies[n]:
+            real = Real()
+            real.run("f::{" + body + "}")
+            direct, _ = real.run("f(" + ";".join(lit_text(a) for a in args) + ")")
+            for part in ordered_partitions(range(n)):
+                if len(part) < 2:
+                    continue
+                remaining = list(range(n))
+                prev = "f"
+                hist = ["f::{" + body + "}"]
+                for i, block in enumerate(part[:-1]):
+                    name = f"s{i + 1}"
+                    pat = ";".join(lit_text(args[p]) if p in block else "" for p in remaining)
+                    text = f"{name}::{prev}({pat})"
+                    hist.append(text)
+                    real.run(text)
+                    remaining = [p for p in remaining if p not in block]
+                    prev = name
+                    # the stored projection, called from Python with all the values still missing
+                    vals = [args[p] for p in remaining]
+                    case = dict(kind="pycall", stmts=list(hist), py=dict(name=name, args=vals), meta=dict(partition=part))
+                    ktext = f"{name}(" + ";".join(lit_text(a) for a in vals) + ")"
+                    kout, _ = real.run(ktext)
+                    pout = real.pycall(name, vals)
+                    ctx.count(("pycall", body, str(part), name))
+                    if kout != direct:
+                        ctx.oracle_fail("proj:multi-step", dict(case=case, text=ktext), direct, kout,
+                                        "the Klong call of the projection differs from the direct call")
+                    elif pout != direct:
+                        ctx.oracle_fail("proj:python-call", dict(case=case, text=f"klong['{name}'](*{vals})"), direct, pout,
+                                        f"calling the stored projection {hist[-1]} from Python with the {len(vals)} missing "
+                                        "value(s) differs from the same call in Klong")
+                    else:
+                        ctx.bump("oracle:pycall")
+    ctx.bump("kind:pycall")
+
+
 # --------------------------------------------------------------------------- entry
 
 HAND = [
@@ -1900,6 +2045,8 @@ def run(ctx):
                 "matrix and rank-3 operands (named, lambda, projection, parameter-held) against explicit direct calls; "
                 "argument tuples of strings (empty, unicode), lists of strings, nested lists and reals through direct / "
                 "literal / variable / @ / parameter-held @ / projection @ / each / over; "
+                "dyadic adverbs (Each-Left/Right, Each-2, Over/Scan-neutral) with atoms and lists as the iterated operand; "
+                "stored projections called through klong[name](...) for every hole pattern and step order; "
                 "histories of 60-200 failing calls followed by probes (recursion 30-90 deep) against a fresh "
                 "interpreter; bare KlongContext operation sequences. distinct = distinct statement "
                 "sequences; non-trivial = at least two statements")
@@ -1955,6 +2102,10 @@ def run(ctx):
             run_case(ctx, drv, case_values(rng))
         for _ in range(60 if quick else 1500):
             run_case(ctx, drv, case_symbols(rng))
+        for body in ATOM_VERBS:
+            for spelling in ("named", "lambda"):
+                run_case(ctx, drv, case_advatom(body, spelling))
+        run_pycall_projections(ctx, rng)
         for _ in range(3 if quick else 40):
             run_case(ctx, drv, case_history(rng, rng.randrange(70, 110) if quick else rng.randrange(60, 200)))
         # failing sub-expression: every (depth, failing level, position), call styles sampled
@@ -1997,6 +2148,8 @@ def replay(ctx, case):
         if c.get("kind") == "ctx":
             ops = c["ops"][:c.get("upto", len(c["ops"])) + 1] if "upto" in c else c["ops"]
             run_ctx_sequence(ctx, drv, ops, c["strict"], c["nsys"])
+        elif c.get("kind") == "pycall":
+            run_pycall_projections(ctx, ctx.rng)
         elif "stmts" in c:
             run_case(ctx, drv, dict(kind=c.get("kind", "hand"), stmts=c["stmts"], defs=c.get("defs", {}),
                                     meta=c.get("meta", {}), tie=c.get("tie", True)))
